@@ -850,6 +850,12 @@ class PteraTransformer(NodeTransformer):
         # Like nested functions, nested classes are left alone: the
         # variables of a class body are not variables of this function
         # (and __ptera_* names would be mangled inside a class body).
+        # The bases, the keywords and the decorators are evaluated in
+        # this function, though.
+        node.bases = [self.visit(base) for base in node.bases]
+        for kw in node.keywords:
+            kw.value = self.visit(kw.value)
+        node.decorator_list = [self.visit(d) for d in node.decorator_list]
         return node
 
     def visit_Global(self, node):
